@@ -108,7 +108,7 @@ Definition may (s : st) (w : N) (a : acc) : bool :=
   else if site =? S_PATCH_WR then
     (n =? s_bclen s) && match lookup op patch_writes with Some offs => memN i (map (N.add (s_ip s)) offs) | None => false end
   else if site =? S_PATCH_RD then
-    (n =? s_bclen s) && (op =? OP_CallGlobal) && (i =? s_ip s)
+    (n =? s_bclen s) && match lookup op patch_reads with Some offs => memN i (map (N.add (s_ip s)) offs) | None => false end
   else if site =? S_CALLSITE then
     (n =? s_cachelen s) && (op =? OP_CallGlobalMono) && (if callsite_guarded then i <? n else true)
   else if site =? S_UPVAL then
@@ -160,16 +160,21 @@ Definition foot_ok (q : st * N * list acc * bool) : bool :=
   end.
 
 (* ---- control flow inside one function ------------------------------------------------------- *)
+(* successors inside the function, read off the dispatch arms (Extracted.DispatchSites): arms that assign
+   ip := ip + imm may land on the jump target; Jump always does; CallGlobalNative may rewrite its own word and
+   dispatch it again; everything else goes to the next instruction (two cache words skipped where the arm does) *)
 Definition is_cjump (c : chk) : bool := match c with CJump => true | _ => false end.
 Definition has_jump (op : N) : bool :=
   match lookup op vtable with Some (cs, _) => existsb is_cjump cs | None => false end.
+Definition disp_adv (w : N) : N := if memN (w_op w) dispatch_skip_ops then 3 else 1.
 
 Definition succs (code : list N) (ip : N) : list N :=
   match nthN code ip with
   | None => []
   | Some w =>
-      (if has_jump (w_op w) then [Z.to_N (jump_target ip w)] else [])
-      ++ (if w_op w =? OP_Jump then [] else [ip + adv_of w])
+      (if memN (w_op w) dispatch_jump_ops then [Z.to_N (jump_target ip w)] else [])
+      ++ (if memN (w_op w) dispatch_redo_ops then [ip] else [])
+      ++ (if w_op w =? OP_Jump then [] else [ip + disp_adv w])
   end.
 
 Inductive reach (code : list N) : N -> Prop :=
@@ -227,7 +232,7 @@ Inductive mstep : list frame -> list frame -> Prop :=
       w_op w <> OP_TailCallUpval -> verify callee = VOk ->
       mstep (fr :: rest)
             ({| fr_fn := callee; fr_st := enter (w_op w) kind (fr_st fr) callee b |}
-             :: {| fr_fn := fr_fn fr; fr_st := set_ip (fr_st fr) (s_ip (fr_st fr) + adv_of w) |} :: rest)
+             :: {| fr_fn := fr_fn fr; fr_st := set_ip (fr_st fr) (s_ip (fr_st fr) + disp_adv w) |} :: rest)
   | ms_tail : forall fr rest w kind callee b,                      (* TailCallUpval reuses the frame *)
       nthN (f_code (fr_fn fr)) (s_ip (fr_st fr)) = Some w -> w_op w = OP_TailCallUpval -> verify callee = VOk ->
       mstep (fr :: rest) ({| fr_fn := callee; fr_st := enter (w_op w) kind (fr_st fr) callee b |} :: rest)
